@@ -386,8 +386,8 @@ Section Univ.
   Notation visit := (visit mf succs).
   Notation index_all := (index_all N mf succs).
   Notation st_push := (st_push mf bad).
-  Notation st_tagop := (st_tagop true).
-  Notation delete1 := (delete1 succs).
+  Notation st_tagop := (st_tagop mf true).
+  Notation delete1 := (delete1 mf succs).
   Notation delete_loop := (delete_loop N mf succs subj true).
   Notation st_delete := (st_delete N mf succs subj true).
   Notation gc_pass1 := (gc_pass1 N mf succs).
@@ -618,10 +618,17 @@ Section Univ.
     intros G. unfold OciIndex.st_tagop. simpl.
     destruct (negb match r with RDig k => Nat.eqb k (d_node d) | RTag _ => true end) eqn:W; [exact G|].
     destruct (mem (d_node d) (blobs s)) eqn:M; [|exact G].
-    simpl. apply st_tag_good.
-    - apply G.
-    - now apply mem_In.
-    - destruct r as [t|k]; simpl; auto. apply negb_false_iff in W. now apply Nat.eqb_eq in W.
+    apply mem_In in M. simpl.
+    assert (Wf : wf_tag d r).
+    { destruct r as [t|k]; simpl; auto. apply negb_false_iff in W. now apply Nat.eqb_eq in W. }
+    destruct (mf (d_node d)) eqn:Mf.
+    - apply st_tag_good; auto. destruct G as [H _]. unfold Inv, idx in *. simpl. split.
+      + apply H.
+      + apply H.
+      + apply H.
+      + intros k' Mk I. apply In_add in I as [->|I]; auto. eapply inv_g2a; eauto.
+      + intros k' Mk I. apply In_add. right. eapply inv_g2b; eauto.
+    - apply st_tag_good; auto. apply G.
   Qed.
 
   (* ----- Untag ----- *)
@@ -742,34 +749,70 @@ Section Univ.
       destruct Nk as [Nk Ik']. apply graph_remove_fst. split; auto. eapply inv_g2b; eauto.
   Qed.
 
+  Lemma graph_remove_snd k g x : In x (snd (graph_remove succs k g)) -> In x (fst (graph_remove succs k g)).
+  Proof.
+    unfold graph_remove. destruct (mem k g); simpl; [|tauto].
+    intro H. apply filter_In in H as [_ H]. apply andb_true_iff in H as [H _]. now apply mem_In.
+  Qed.
+
+  Lemma keep_danglings_inv bl g dang : forall m,
+    (forall x, In x dang -> In x g) -> InvC bl (r_index m) g ->
+    InvC bl (r_index (keep_danglings mf dang m)) g.
+  Proof.
+    induction dang as [|d dang IH]; intros m Hd H; simpl; auto.
+    apply IH; [intros x I; apply Hd; now right|].
+    unfold needs_ref. destruct (mf d) eqn:Md; simpl; auto.
+    destruct (lookup (RDig d) (r_index m)); auto.
+    cbn [r_index res_tag].
+    assert (E : rset (RDig d) (plain d) (r_index m) = tag_ix (plain d) (RDig d) (r_index m)).
+    { unfold tag_ix, is_digest_ref. simpl. now rewrite Nat.eqb_refl. }
+    rewrite E. apply tag_ix_inv; auto.
+    - simpl. eapply inv_g2a; [exact H|exact Md|]. apply Hd. now left.
+    - reflexivity.
+  Qed.
+
+  Lemma keep_danglings_same dang : forall m,
+    existsb (needs_ref mf m) dang = false -> keep_danglings mf dang m = m.
+  Proof.
+    induction dang as [|d dang IH]; intros m H; simpl in *; auto.
+    apply orb_false_iff in H as [H1 H2]. rewrite H1. now apply IH.
+  Qed.
+
   Lemma delete1_good cfg o k s : Good cfg s -> Good cfg (fst (fst (delete1 cfg o k s))).
   Proof.
     intros [H S]. unfold OciIndex.delete1.
     fold (refs_of k (r_index (res s))). fold (untag_all (refs_of k (r_index (res s))) (res s)).
     set (m := untag_all (refs_of k (r_index (res s))) (res s)).
     set (g' := fst (graph_remove succs k (gr s))).
-    assert (I1 : forall dk, Inv (mkStore (del k (blobs s)) m g' dk)).
-    { intro dk. unfold Inv, idx. simpl.
+    set (dang := snd (graph_remove succs k (gr s))).
+    set (m2 := keep_danglings mf dang m).
+    assert (Hd : forall x, In x dang -> In x g') by (intros x I; now apply graph_remove_snd).
+    assert (I1 : forall dk, Inv (mkStore (del k (blobs s)) m2 g' dk)).
+    { intro dk. unfold Inv, idx. simpl. apply keep_danglings_inv; auto.
       apply (delete_invc k (blobs s) (r_index (res s)) (gr s) (res s)); [exact H|reflexivity|].
       intro x. rewrite In_del. split; [tauto|].
       intros [?|[Ix Nk]]; auto. split; auto. intro; subst. contradiction. }
-    assert (I2 : ~ In k (blobs s) -> forall dk, Inv (mkStore (blobs s) m g' dk)).
-    { intros Nk dk. unfold Inv, idx. simpl.
+    assert (I2 : ~ In k (blobs s) -> forall dk, Inv (mkStore (blobs s) m2 g' dk)).
+    { intros Nk dk. unfold Inv, idx. simpl. apply keep_danglings_inv; auto.
       apply (delete_invc k (blobs s) (r_index (res s)) (gr s) (res s)); [exact H|reflexivity|].
       intro x. split; [|tauto]. intro Ix. right. auto. }
-    assert (I3 : IxInv (r_index m)).
+    assert (I3 : IxInv (r_index m2)).
     { exact (inv_ix _ _ _ (I1 [])). }
-    destruct (refs_of k (r_index (res s))) eqn:R.
-    - (* nothing untagged: the resolver is unchanged, index.json is not written *)
-      assert (Em : m = res s) by (unfold m; try rewrite R; reflexivity).
-      destruct (mem k (blobs s)) eqn:M; simpl.
-      + split; [apply I1|]. intro A. unfold Synced, idx. simpl. rewrite Em. now apply S.
-      + apply mem_false in M. split; [now apply I2|]. intro A. unfold Synced, idx. simpl. rewrite Em. now apply S.
+    destruct (negb match refs_of k (r_index (res s)) with [] => true | _ :: _ => false end
+              || existsb (needs_ref mf m) dang) eqn:C.
     - unfold maybe_save, do_save. destruct (autosave cfg) eqn:A; destruct (mem k (blobs s)) eqn:M; simpl.
       + split; [apply I1|]. intros _. unfold Synced, idx. simpl. now apply save_diskok.
       + apply mem_false in M. split; [now apply I2|]. intros _. unfold Synced, idx. simpl. now apply save_diskok.
       + split; [apply I1|]. intro X; congruence.
       + apply mem_false in M. split; [now apply I2|]. intro X; congruence.
+    - (* nothing untagged, nothing added: the resolver is unchanged, index.json is not written *)
+      apply orb_false_iff in C as [C1 C2].
+      assert (Em : m2 = res s).
+      { unfold m2. rewrite keep_danglings_same by exact C2. unfold m.
+        destruct (refs_of k (r_index (res s))); [reflexivity|discriminate]. }
+      destruct (mem k (blobs s)) eqn:M; simpl.
+      + split; [apply I1|]. intro A. unfold Synced, idx. simpl. rewrite Em. now apply S.
+      + apply mem_false in M. split; [now apply I2|]. intro A. unfold Synced, idx. simpl. rewrite Em. now apply S.
   Qed.
 
   Lemma delete_loop_good cfg o fuel : forall ds qq pd s, Good cfg s -> Good cfg (fst (delete_loop fuel cfg o ds qq pd s)).
@@ -843,7 +886,7 @@ Section Univ.
       GcInv (fst (fold_left (fun ac kv =>
         let a := fst ac in let r := fst kv in let d := snd kv in
         if negb (is_digest_ref r d) || mem (d_node d) (g_tagged a) then ac
-        else if chain_hits subj sk (S N) bl (g_gr a) (d_node d)
+        else if chain_hits mf subj sk (S N) bl (g_gr a) (d_node d)
              then (mkGc (res_tag (strip d) (RDig (d_node d)) (g_res a))
                         (index_all bl (d_node d) (g_gr a)) (d_node d :: g_tagged a), true)
              else ac) l (a, b))).
@@ -851,7 +894,7 @@ Section Univ.
       induction l as [|[r d] l IH]; intros a b Hl Ga; cbn [fold_left fst snd]; auto.
       assert (Hl' : forall kv, In kv l -> In kv ix) by (intros kv I; apply Hl; now right).
       destruct (negb (is_digest_ref r d) || mem (d_node d) (g_tagged a)); [now apply IH|].
-      destruct (chain_hits subj sk (S N) bl (g_gr a) (d_node d)); [|now apply IH].
+      destruct (chain_hits mf subj sk (S N) bl (g_gr a) (d_node d)); [|now apply IH].
       apply IH; auto. destruct a as [rs g tg]. cbn [g_res g_gr g_tagged].
       apply (gcinv_dig rs g tg); auto. eapply entry_present. apply Hl. now left.
     Qed.
@@ -1210,19 +1253,17 @@ Qed.
    index 2); after Delete of the index (AutoGC off) the reopened store no longer indexes it. *)
 Definition ex_mf (k : nat) := match k with 1 | 2 => true | _ => false end.
 Definition ex_succs (k : nat) := match k with 1 => [0] | 2 => [1] | _ => [] end.
-Lemma refuted_gc_drops_digest_ref :
-  exists (N : nat) (mf : nat -> bool) (succs : nat -> list nat) (subj : nat -> option nat)
-         (sk dflt : nat -> bool) (cfg : config) (h : list (op * orders)),
-    autosave cfg = true /\ wf_history mf h /\ (forall k, mf k = false -> succs k = []) /\
-    let s := run N mf succs subj sk (fun _ => false) true false true true true cfg h store_empty in
-    obs_preds N succs (reopen N mf succs s) 0 <> obs_preds N succs s 0.
-Proof.
-  exists 3, ex_mf, ex_succs, (fun _ => None), (fun _ => true), (fun _ => false),
-    ex_cfg, (ex_plain_hist [OPush 1; OPush 2; OTag (plain 2) (RTag 0); OGC; ODelete 2]).
-  split; [reflexivity|]. split; [repeat constructor|]. split.
-  - intros [|[|[|k]]]; simpl; intro; try discriminate; reflexivity.
-  - vm_compute. discriminate.
-Qed.
+(* Without fixA, GC drops the digest reference of the kept child: Resolve by digest degrades to
+   the generic blob descriptor.  (Since Delete gives a manifest that loses its last predecessor
+   a digest reference again, this no longer leads to a reopen difference; the history
+   Push 1; Push 2; Tag 2; GC; Delete 2 of corpus/C08/gc-orphan-digest-ref.json was one before.) *)
+Lemma gc_digest_ref_effect :
+  let h := ex_plain_hist [OPush 1; OPush 2; OTag (plain 2) (RTag 0); OGC] in
+  let run' := fun fixA => run 3 ex_mf ex_succs (fun _ => None) (fun _ => true) (fun _ => false)
+                              true fixA true true true ex_cfg h store_empty in
+  obs_resolve_dig (fun _ => false) (run' false) 1 = DBlob 1 /\
+  obs_resolve_dig (fun _ => false) (run' true) 1 = DPlain 1.
+Proof. vm_compute. split; reflexivity. Qed.
 
 (* the hypotheses are satisfiable by a non-trivial history; the repaired model on the same
    histories *)
